@@ -50,6 +50,10 @@ def marker (andMode : Bool) (ths : List Rat) (vals : List (Option Rat)) : Option
   (foldCmp andMode ths 0 vals andMode).map (!·)
 
 /-- the outer loop over the observations: the first `IndexError` aborts the call -/
-def markers (andMode : Bool) (ths : List Rat) (rows : List (List (Option Rat))) : Option (List Bool) :=
-  rows.mapM (marker andMode ths)
+def markers (andMode : Bool) (ths : List Rat) : List (List (Option Rat)) → Option (List Bool)
+  | [] => some []
+  | r :: rs =>
+    match marker andMode ths r with
+    | none => none
+    | some b => (markers andMode ths rs).map (b :: ·)
 end TV.Split
